@@ -22,7 +22,7 @@ BUDGET = {'quick': 40, 'thorough': 600}
 CHUNK = {'quick': 150, 'thorough': 300}
 RULE = ('one case = one seeded scenario (2-4 contender processes x 1-3 lock/unlock cycles, release style, '
         'time-outs, hold styles, lock file permissions, lock-object re-use, optional process kill, optional failing unlink of the lock '
-        'file) under one seeded schedule at file-system-call granularity; '
+        'file, optional failing flock(), optionally as tile locks from TileLocker with a task that keeps cleaning the lock directory) under one seeded schedule at file-system-call granularity; '
         'non-trivial = at least one try-lock attempt failed because another contender held the lock (real contention) '
         'or a time-out was raised; distinct = distinct hash of the (task, seam-op, object) event sequence')
 COMPONENTS = {
@@ -69,6 +69,11 @@ def gen(t, tier):
         # falls back to closing the descriptor - the lock is free all the same and must stay exclusive afterwards
         sc['unlink_fault'] = {'at': t.choice(6), 'errno': t.pick(['EPERM', 'EIO', 'EACCES'])}
         sc['reuse'] = bool(t.chance(0.7))
+    if sc['kind'] == 'filelock' and sc['remove'] and not sc.get('unlink_fault') and t.chance(0.3):
+        # the lock is a tile lock handed out by TileLocker (every lock() call of which may clean the lock directory), and other
+        # requests of the server keep cleaning the lock directory (cleanup_lockdir) while the contenders lock and unlock
+        sc['tilelocker'] = {'cleanups': t.randint(1, 6), 'gap': t.pick([0, 0.001, 0.02])}
+        sc['perm'] = None
     if t.chance(0.2):
         # one flock() call of a contender fails for a reason other than "somebody else holds it" (no lock records left in the
         # kernel, an interrupted call, an I/O error of a network file system): that attempt did not take the lock
@@ -104,6 +109,10 @@ def shrink(sc):
         c = copy.deepcopy(sc)
         del c['flock_fault']
         yield c
+    if sc.get('tilelocker') and sc['tilelocker']['cleanups'] > 1:
+        c = copy.deepcopy(sc)
+        c['tilelocker']['cleanups'] -= 1
+        yield c
     for key, simple in (('crash', False), ('eager_time', False), ('reuse', False), ('perm', None)):
         if sc[key] != simple:
             c = copy.deepcopy(sc)
@@ -127,6 +136,12 @@ def run(sc, tape):
     fs = w.fs
     n_slots = sc['n']
     style = 'sem%d' % n_slots if sc['kind'] == 'semlock' else ('remove' if sc['remove'] else 'keep')
+    path = PATH
+    if sc.get('tilelocker'):
+        from mapproxy.cache.base import TileLocker
+        from mapproxy.cache.tile import Tile
+        style = 'tilelocker'
+        path = TileLocker(LOCKDIR, 60, 'cid').lock_filename(Tile((1, 1, 1)))
     events = []          # (seq, tid, kind, extra, now)
     inside = {}          # tid -> enter seq
     viol = []
@@ -140,8 +155,10 @@ def run(sc, tape):
 
     def make_lock(c):
         if sc['kind'] == 'semlock':
-            return SemLock(PATH, n_slots, timeout=c['timeout'], step=c['step'], file_permissions=sc['perm'])
-        return FileLock(PATH, timeout=c['timeout'], step=c['step'], remove_on_unlock=sc['remove'],
+            return SemLock(path, n_slots, timeout=c['timeout'], step=c['step'], file_permissions=sc['perm'])
+        if sc.get('tilelocker'):
+            return TileLocker(LOCKDIR, c['timeout'], 'cid').lock(Tile((1, 1, 1)))
+        return FileLock(path, timeout=c['timeout'], step=c['step'], remove_on_unlock=sc['remove'],
                         file_permissions=sc['perm'])
 
     def contender(i, c):
@@ -197,7 +214,7 @@ def run(sc, tape):
                 code = getattr(errno, uf['errno'])
                 raise OSError(code, os.strerror(code), str(key))
         ff = sc.get('flock_fault')
-        if ff and op == 'flock' and proc is not None and proc.name != 'pf' and str(key).startswith(PATH):
+        if ff and op == 'flock' and proc is not None and proc.name not in ('pf', 'hk') and str(key).startswith(path):
             n = flock_count[0]
             flock_count[0] += 1
             if n == ff['at']:
@@ -235,9 +252,9 @@ def run(sc, tape):
         try:
             for k in range(n_slots):
                 if sc['kind'] == 'semlock':
-                    l = SemLock(PATH, n_slots, timeout=0, step=0.001, file_permissions=sc['perm'])
+                    l = SemLock(path, n_slots, timeout=0, step=0.001, file_permissions=sc['perm'])
                 else:
-                    l = FileLock(PATH, timeout=0, step=0.001, remove_on_unlock=sc['remove'],
+                    l = FileLock(path, timeout=0, step=0.001, remove_on_unlock=sc['remove'],
                                  file_permissions=sc['perm'])
                 l.lock()
                 got.append(l)
@@ -252,6 +269,19 @@ def run(sc, tape):
         for i, c in enumerate(sc['contenders']):
             sched.spawn(contender(i, c), 'c%d' % i, w.new_proc('p%d' % i))
         sched.spawn(finisher, 'fin', w.new_proc('pf'))
+        if sc.get('tilelocker'):
+            def housekeeper():
+                import time
+                from mapproxy.util.lock import cleanup_lockdir
+                for _ in range(sc['tilelocker']['cleanups']):
+                    # what the 50th TileLocker.lock() call of any request does (lock time-out 60 s)
+                    cleanup_lockdir(LOCKDIR, max_lock_time=70, force=True)
+                    faults['lockdir_cleanups'] = faults.get('lockdir_cleanups', 0) + 1
+                    if sc['tilelocker']['gap']:
+                        time.sleep(sc['tilelocker']['gap'])
+                    else:
+                        sched.yield_point('hk', 0)
+            sched.spawn(housekeeper, 'hk', w.new_proc('hk'))
         outcome = w.run_tasks()
         for t in sched.tasks:
             if t.exc is not None:
@@ -271,7 +301,7 @@ def run(sc, tape):
         violation = {'sig': 'C07:relock-failed:%s' % style,
                      'msg': 'after all contenders were done a fresh lock() could not take the lock at once'}
     else:
-        msg = check_timeouts(sc, events, log, flock_failed)
+        msg = check_timeouts(sc, events, log, flock_failed, path)
         if msg:
             violation = {'sig': 'C07:spurious-timeout:%s' % style, 'msg': msg}
 
@@ -295,7 +325,7 @@ def run(sc, tape):
     }
 
 
-def check_timeouts(sc, events, log, flock_failed=()):
+def check_timeouts(sc, events, log, flock_failed=(), path=PATH):
     """a LockTimeout is justified only if >= timeout elapsed and during each try-lock attempt of the
     waiter some other contender held (or was acquiring / releasing) the lock at some instant (or the waiter's own flock()
     call failed with an injected error during that attempt)"""
@@ -339,7 +369,7 @@ def check_timeouts(sc, events, log, flock_failed=()):
         if now - s_now < timeout - 1e-9:
             return 'contender c%d got LockTimeout after %.6fs, before its timeout of %ss' % (tid, now - s_now, timeout)
         opens = [k for k in range(s_seq, min(seq, len(log))) if log[k][0] == tid and log[k][1] == 'fs-open'
-                 and str(log[k][2]).startswith(PATH)]
+                 and str(log[k][2]).startswith(path)]
         if not opens:
             return 'contender c%d got LockTimeout without a single attempt' % tid
         bounds = opens + [seq]
